@@ -178,9 +178,31 @@ class ExecMixin:
             st.record_write(('var', tgt.id))
             yield Outcome('normal', st)
             return
-        if isinstance(tgt, (ast.Tuple, ast.List)):
+        if isinstance(tgt, (ast.Tuple, ast.List)) and all(isinstance(x, (ast.Name, ast.Tuple, ast.List)) for x in tgt.elts):
             self.bind_target(tgt, v, st)
             yield Outcome('normal', st)
+            return
+        if isinstance(tgt, (ast.Tuple, ast.List)):
+            # unpacking into subscripts / attributes: element-wise assignment, left to right
+            vv = self.lift(v)
+            if isinstance(vv, SV) and vv.t.kind == 'tuple':
+                vv = unpack(st, vv.e, vv.t)
+            if not isinstance(vv, TupV) or len(vv.items) != len(tgt.elts):
+                if isinstance(vv, TupV):
+                    self.safety(st, z3.BoolVal(False), 'unpack-arity', tgt)
+                    return
+                raise OutOfSubset('unpacking %r into subscripts' % (vv,))
+
+            def rec(i, st0):
+                if i == len(tgt.elts):
+                    yield Outcome('normal', st0)
+                    return
+                for o in self.assign(tgt.elts[i], vv.items[i], st0):
+                    if o.kind == 'normal':
+                        yield from rec(i + 1, o.st)
+                    else:
+                        yield o
+            yield from rec(0, st)
             return
         if isinstance(tgt, ast.Attribute):
             for o, st1 in self.ev(tgt.value, st):
